@@ -467,3 +467,17 @@ mod test {
         date_time.parse(new_input(input)).unwrap();
     }
 }
+
+#[cfg(toml_verif)]
+pub(crate) mod verif {
+    //! Add-only forwarders to file-private tables for `crate::verif_hooks`
+    use super::*;
+    use winnow::stream::ContainsToken as _;
+
+    pub(crate) fn class_digit(b: u8) -> bool {
+        DIGIT.contains_token(b)
+    }
+    pub(crate) fn class_time_delim(b: u8) -> bool {
+        TIME_DELIM.contains_token(b)
+    }
+}
